@@ -577,6 +577,26 @@ Theorem C17_zsh_script_untamed_name_refuted :
     skeleton (events sh_step ZB s1) <> skeleton (events sh_step ZB s2).
 Proof. exact zsh_untamed_name_refuted. Qed.
 Print Assumptions C17_zsh_script_untamed_name_refuted.
+(** round 4: [ztame_cmd] also asks the VALUE NAMES (written as they are between the colons of an option spec) and the value
+    terminators (written through [escape_value]) to be free of quotes, backslashes and hashes.  Satisfiable with both, and
+    sharp for value names: a quote in a value name ends the quoted spec early and the help of the NEXT option is read
+    outside the quotes (family of the recorded finding C17-names-unescaped) *)
+Theorem C17_zsh_script_value_name_terminator_nonvacuous :
+  ztame_cmd zl_ext_cmd = true /\
+  exists s, zsh_script zl_ext_cmd cd0 = Some s /\
+    binfix [39; 45; 45; 111; 117; 116; 61; 91; 93; 58; 70; 73; 76; 69; 58; 95; 100; 101; 102; 97; 117; 108; 116; 39; 32; 92] s = true /\
+    binfix [39; 42; 97; 92; 32; 98; 59; 58; 58; 115; 114; 99; 58; 95; 100; 101; 102; 97; 117; 108; 116; 39; 32; 92] s = true /\
+    binfix [39; 58; 58; 114; 101; 115; 116; 58; 95; 100; 101; 102; 97; 117; 108; 116; 39; 32; 92] s = true.
+Proof. exact zsh_tame_value_name_terminator. Qed.
+Print Assumptions C17_zsh_script_value_name_terminator_nonvacuous.
+
+Theorem C17_zsh_script_untamed_value_name_refuted :
+  exists c d1 d2 s1 s2,
+    ztame_cmd c = false /\ erase_desc d1 = erase_desc d2 /\
+    zsh_script c d1 = Some s1 /\ zsh_script c d2 = Some s2 /\
+    skeleton (events sh_step ZB s1) <> skeleton (events sh_step ZB s2).
+Proof. exact zsh_untamed_value_name_refuted. Qed.
+Print Assumptions C17_zsh_script_untamed_value_name_refuted.
 (** Level 2: the [_arguments] specs and [_describe] items.  [spec_line c d g line]: [line] is one of the quoted spec
     lines the model writes for the command [c] (an option spec per spelling, a flag spec per spelling, a positional
     spec, a ['name:about'] item per subcommand name or visible alias); the C16 theorems [C16_zsh_block_options],
